@@ -32,6 +32,7 @@ type xreader struct {
 	all      bool // enumerate all chunk sizes (small inputs)
 	errAt    int  // -1: none
 	errGlued bool // deliver the error together with the bytes that precede it
+	errKind  int  // which error value is injected (c05Errs)
 	lastZero bool
 	reads    int
 	sawEnd   bool
@@ -45,7 +46,7 @@ func (r *xreader) Read(p []byte) (int, error) {
 	}
 	if r.errAt >= 0 && r.pos >= r.errAt {
 		r.sawEnd = true
-		return 0, errInjected
+		return 0, c05Errs[r.errKind]
 	}
 	rem := len(r.data) - r.pos
 	if rem == 0 {
@@ -94,7 +95,7 @@ func (r *xreader) Read(p []byte) (int, error) {
 	r.pos += k
 	if r.errAt >= 0 && r.pos == r.errAt && r.errGlued {
 		r.sawEnd = true
-		return k, errInjected
+		return k, c05Errs[r.errKind]
 	}
 	if r.errAt < 0 && r.pos == len(r.data) {
 		if r.x.Deviate(2) == 1 { // data together with EOF
@@ -103,6 +104,17 @@ func (r *xreader) Read(p []byte) (int, error) {
 		}
 	}
 	return k, nil
+}
+
+// c05Errs: the failures a reader is made to report. 0: an opaque sentinel;
+// 1 and 2: errors of a transport layer that WRAP io.ErrUnexpectedEOF / io.EOF
+// (only the identical io.EOF value means "end of input" for an io.Reader).
+var c05Kind int // index into c05Errs of the error injected by the running execution
+
+var c05Errs = []error{
+	errInjected,
+	fmt.Errorf("verif transport: body closed early: %w", io.ErrUnexpectedEOF),
+	fmt.Errorf("verif transport: stream reset: %w", io.EOF),
 }
 
 func sameResult(a, b *mimetype.MIME) bool {
@@ -118,7 +130,7 @@ func sameResult(a, b *mimetype.MIME) bool {
 // c05Body is one execution: returns ok, sig, msg.
 func c05Body(x *explore.Exec, in []byte, limit uint32, errAt int, glued, all bool) (bool, string, string) {
 	want := detect(in, limit)
-	r := &xreader{data: in, x: x, all: all, errAt: errAt, errGlued: glued}
+	r := &xreader{data: in, x: x, all: all, errAt: errAt, errGlued: glued, errKind: c05Kind}
 	setLimit(limit)
 	var got *mimetype.MIME
 	var err error
@@ -153,10 +165,10 @@ func c05Body(x *explore.Exec, in []byte, limit uint32, errAt int, glued, all boo
 	mustFail := limit == 0 || errAt < int(limit)
 	if mustFail {
 		if err == nil {
-			return false, "C05/error-swallowed", fmt.Sprintf("%s: reader failed after %d bytes (before the header was complete) but DetectReader returned no error and %s", desc, errAt, chainStr(got))
+			return false, "C05/error-swallowed", fmt.Sprintf("%s: reader failed with %q after %d bytes (before the header was complete) but DetectReader returned no error and %s", desc, c05Errs[c05Kind], errAt, chainStr(got))
 		}
-		if !errors.Is(err, errInjected) {
-			return false, "C05/error-replaced", fmt.Sprintf("%s: reader failed with the sentinel error, DetectReader returned %v", desc, err)
+		if !errors.Is(err, c05Errs[c05Kind]) || (c05Kind == 0 && !errors.Is(err, errInjected)) {
+			return false, "C05/error-replaced", fmt.Sprintf("%s: reader failed with %q, DetectReader returned %v", desc, c05Errs[c05Kind], err)
 		}
 		if ok, sig, msg := validateResult(got, err); !ok {
 			return false, "C05/error-result/" + sig, desc + ": " + msg
@@ -178,7 +190,9 @@ func c05Body(x *explore.Exec, in []byte, limit uint32, errAt int, glued, all boo
 // c05Eval replays one schedule: Ints = [errAt, glued, all, choices...]
 func c05Eval(cs *core.Case) (ok bool, sig, msg string) {
 	explore.Replay(cs.Ints[3:], func(x *explore.Exec) bool {
-		ok, sig, msg = c05Body(x, cs.In, cs.Limit, cs.Ints[0], cs.Ints[1] == 1, cs.Ints[2] == 1)
+		c05Kind = cs.Ints[1] >> 1
+		ok, sig, msg = c05Body(x, cs.In, cs.Limit, cs.Ints[0], cs.Ints[1]&1 == 1, cs.Ints[2] == 1)
+		c05Kind = 0
 		return ok
 	})
 	return
@@ -294,6 +308,7 @@ func c05Run(c *core.Ctx) {
 				if glued {
 					g = 1
 				}
+				g += 2 * c05Kind
 				if all {
 					a = 1
 				}
@@ -366,7 +381,11 @@ func c05Run(c *core.Ctx) {
 					if small {
 						b = -1
 					}
-					explore1(in, l, off, glued, b, small, "error-at-offset")
+					for kind := range c05Errs {
+						c05Kind = kind
+						explore1(in, l, off, glued, b, small, "error-at-offset")
+					}
+					c05Kind = 0
 				}
 			}
 			if step > 1 {
